@@ -29,8 +29,8 @@ def mk_query(prog, doms, classes=None, quant="an", **kw):
     return q
 
 
-def drain_ev(qi=1, eqto=0):
-    return {"op": "drain", "qi": qi, "eqto": eqto}
+def drain_ev(qi=1, eqto=0, eqoff=0):
+    return {"op": "drain", "qi": qi, "eqto": eqto, "eqoff": eqoff}
 
 
 def domain_size(q):
@@ -394,3 +394,76 @@ def check_C08(tier, seed):
 
 
 CHECKS["C08"] = check_C08
+
+
+# ---------------------------------------------------------------------- C19
+def _has_falsy(W, q):
+    for v in q["vars"]:
+        for o in v["dom"]:
+            f = W["objs"][o - 1]["f"]
+            if any((x["t"] == "int" and x["v"] == 0) or (x["t"] in ("str", "list") and not x["v"]) or x["t"] == "none"
+                   for x in f.values()):
+                return True
+    return False
+
+
+def check_C19(tier, seed):
+    from . import shift
+    run = Run("C19", tier, seed)
+    quick = tier == "quick"
+    run.rule = ("G1/G2 programs (operands of comparisons and membership tests, selected attribute expressions, predicate "
+                "arguments) on worlds whose values are mostly the falsy member of their sort (0, '', [], None), judged "
+                "against the denotation; plus a metamorphic twin: the same program and world with every value shifted away "
+                "from falsy (comparison outcomes preserved) must return the same rows by object index; non-trivial = "
+                "domain contains falsy values and the result is neither empty nor everything")
+    run.assumptions = QUERY_ASSUMPTIONS + ["truthiness-dependent leaves (an expression in condition position, p_pos, is_small) "
+                                           "are excluded from the shifted twin, not from the denotation check"]
+    qc = QueryCheck(run)
+    rng = qc.rng
+    twins = 0
+    for nv in (1, 2):
+        progs = _programs(run, nv, quick, sim_quick=600, sim_full=8000, leaf_full=45 if nv == 1 else 34)
+        if quick:
+            progs = rng.sample(progs, min(len(progs), 2000))
+        elif len(progs) > 50000:
+            progs = rng.sample(progs, 50000)
+            run.exhaustive = False
+        for p in progs:
+            n = rng.randint(2, 5)
+            W = {"objs": [{"cls": "A", "f": datasets.obj_fields(rng, n)} for _ in range(n)]}
+            for o in W["objs"]:          # mostly falsy
+                for name in ("n", "m"):
+                    if rng.random() < 0.5:
+                        o["f"][name] = {"t": "int", "v": 0}
+                if rng.random() < 0.5:
+                    o["f"]["s"] = {"t": "str", "v": []}
+                if rng.random() < 0.5:
+                    o["f"]["items"] = {"t": "list", "v": []}
+                if rng.random() < 0.4:
+                    o["f"]["o"] = {"t": "none", "v": 0}
+            doms = datasets.domains_for(rng, W, nv, shared=rng.random() < 0.3, maxdom=4)
+            q = mk_query(p, doms)
+            qs, evs = [q], [drain_ev(1)]
+            try:
+                q2 = shift.shift_program(q)
+                W2 = {"objs": W["objs"] + shift.shift_world(W, n)}
+                q2["vars"] = [dict(v, dom=[o + n for o in v["dom"]]) for v in q2["vars"]]
+                qs.append(q2)
+                evs.append(drain_ev(2, eqto=1, eqoff=n))
+                twins += 1
+                qc.add(W2, qs, evs)
+            except shift.NotShiftable:
+                qc.add(W, qs, evs)
+
+    def nontrivial(t):
+        ev = t["evs"][0]
+        q = t["qs"][0]
+        if ev.get("exc") == "none" and 0 < len(ev["rows"]) < domain_size(q) and _has_falsy(t["W"], q):
+            return digest([q["cond"], q["sel"]])
+        return None
+    qc.execute(nontrivial)
+    run.extra["shifted_twins"] = twins
+    return run.finish()
+
+
+CHECKS["C19"] = check_C19
